@@ -122,4 +122,27 @@ theorem C08_warn (ev : Evaluator P) (cfg : Config) (p : Policy) (e : Bool) (pv :
     · by_cases h1 : p.enforce = p.audit <;> by_cases h2 : p.enforce = p.warn <;> by_cases h3 : p.audit = p.warn <;>
         simp_all [cacheGet] <;> split <;> simp_all
     · simp [h0]
+/-- first occurrences, in order -/
+def distinctInOrder (l : List LevelVersion) : List LevelVersion :=
+  l.foldl (fun acc x => if x ∈ acc then acc else acc ++ [x]) []
+
+/-- **The cache is transparent and saves exactly the repeated evaluations**: the evaluator is called once per *distinct* policy
+    among enforce (when enforcing), audit, and warn (unless denied), in that order — never twice for the same level:version. -/
+theorem evaluatePod_calls (ev : Evaluator P) (cfg : Config) (p : Policy) (e : Bool) (pv : PodView P) (enf : Bool)
+    (hrc : exemptRC pv.runtimeClass cfg.exRuntimeClasses = false) :
+    (evaluatePod ev cfg p e pv enf).evalCalls =
+      distinctInOrder ((if enf then [p.enforce] else []) ++ [p.audit] ++
+          (if (evaluatePod ev cfg p e pv enf).resp.allowed then [p.warn] else [])) := by
+  have s12 : (p.audit = p.enforce) = (p.enforce = p.audit) := propext eq_comm
+  have s13 : (p.warn = p.enforce) = (p.enforce = p.warn) := propext eq_comm
+  have s23 : (p.warn = p.audit) = (p.audit = p.warn) := propext eq_comm
+  unfold evaluatePod
+  simp only [hrc, Bool.false_eq_true, ↓reduceIte]
+  cases enf
+  · by_cases h1 : p.audit = p.warn <;> simp [cacheGet, h1, distinctInOrder, s23] <;> (try split) <;> simp_all
+  · by_cases h0 : (aggregate (ev p.enforce pv.pod)).allowed
+    · by_cases h1 : p.enforce = p.audit <;> by_cases h2 : p.enforce = p.warn <;> by_cases h3 : p.audit = p.warn <;>
+        simp_all [cacheGet, distinctInOrder] <;> (try split) <;> simp_all
+    · by_cases h1 : p.enforce = p.audit <;> simp_all [cacheGet, distinctInOrder]
+
 end PSA
